@@ -83,7 +83,7 @@ class Arith(Exception):
     pass
 
 
-_FN = {"exp": math.exp, "ln": math.log, "log10": math.log10, "sin": math.sin, "cos": math.cos}
+_FN = {"exp": math.exp, "ln": math.log, "log10": math.log10, "sin": math.sin, "cos": math.cos, "tan": math.tan}
 
 
 def ev_term(t, fns):
@@ -327,7 +327,7 @@ def obs_num(kind, text, unit):
 
 def obs_num_base(kind, text, mdim):
     """value of the expression in the coherent base units m, s, g (for the drift comparison)"""
-    unit = unit_text(["m", "s", "g"], mdim)
+    unit = unit_text(["m", "s", "g", "rad"], mdim)
     return obs_num(kind, text, unit)
 
 
